@@ -123,6 +123,21 @@ impl Puppet {
         Puppet { child, stdin, stdout, pid, mem, siglog: parse_ptr(t[2]), siglog_n: parse_ptr(t[3]), sigrtmin: t[4].parse().unwrap(), threads: Vec::new() }
     }
 
+    /// Let the puppet (and the threads it creates from now on) run on every CPU again. For targets
+    /// with several busy threads whose memory is never compared between two dumps.
+    pub fn unpin(&self) {
+        unsafe {
+            let mut set: libc::cpu_set_t = std::mem::zeroed();
+            let ncpu = libc::sysconf(libc::_SC_NPROCESSORS_ONLN).max(1) as usize;
+            for c in 0..ncpu {
+                libc::CPU_SET(c, &mut set);
+            }
+            for tid in self.kernel_tids() {
+                libc::sched_setaffinity(tid, std::mem::size_of::<libc::cpu_set_t>(), &set);
+            }
+        }
+    }
+
     /// Send one command line; returns the tokens after "ok", or Err(reply).
     pub fn cmd(&mut self, line: &str) -> Result<Vec<String>, String> {
         self.stdin.write_all(line.as_bytes()).map_err(|e| e.to_string())?;
